@@ -393,6 +393,53 @@ func agreePurge(r *engine.Run) {
 	for _, body := range bodies {
 		purgeScan(body, purged)
 	}
+	// tempDeleted is still being appended to by the other collector while the commit runs, so
+	// its purge may also sit behind the join: in the closure Commit defers, after Wait, a step
+	// (inline or a trie method) that rewrites tempDeleted from a computation that reads created
+	if !purged["tempDeleted"] {
+		if cm := wfn(r, rule, "Commit"); cm != nil {
+			for _, a := range cm.AnonFuncs {
+				var wait *ssa.Call
+				engine.Instrs(a, func(in ssa.Instruction) {
+					if c, ok := in.(*ssa.Call); ok && extCalleeIs(c, "sync", "WaitGroup", "Wait") {
+						wait = c
+					}
+				})
+				if wait == nil {
+					continue
+				}
+				filters := func(g *ssa.Function) bool {
+					stores, reads := false, false
+					engine.Instrs(g, func(in ssa.Instruction) {
+						if st, ok := in.(*ssa.Store); ok {
+							if fld := engine.FieldOf(st.Addr); fld != nil && fld.Name() == "tempDeleted" {
+								stores = true
+							}
+						}
+						if ld, ok := in.(*ssa.UnOp); ok {
+							if fld := engine.FieldOf(ld.X); fld != nil && fld.Name() == "created" {
+								reads = true
+							}
+						}
+					})
+					return stores && reads
+				}
+				engine.Instrs(a, func(in ssa.Instruction) {
+					c, ok := in.(*ssa.Call)
+					if !ok || !engine.ReachableAfter(wait, c) {
+						return
+					}
+					if h := c.Call.StaticCallee(); h != nil && h.Pkg == f.Pkg && len(h.Blocks) > 0 && filters(h) {
+						purged["tempDeleted"] = true
+						r.Touch(h)
+					}
+				})
+				if filters(a) {
+					purged["tempDeleted"] = true
+				}
+			}
+		}
+	}
 	// fields that feed DeleteNodes' deletes, now or after staging
 	feeds := []string{"deleted", "tempDeleted"}
 	for _, fld := range feeds {
